@@ -309,6 +309,7 @@ func genC05Case(t *rapid.T) (c *ScalarCase, rule, class string) {
 		}
 	}
 	c.Carrier = rapid.SampledFrom([]string{"var", "tag", "tag", "rm"}).Draw(t, "carrier")
+	c.T = maybeNamedDeep(t, c.T)
 	return c, rule, class
 }
 
